@@ -238,3 +238,213 @@ Section RoundOdd.
              _ (exists_NE_FLX radix2 p (or_intror Hp1)) flx_below (IZR v)).
   Qed.
 End RoundOdd.
+
+(* ---------------------------------------------------------------- the loop of parse_radix_digits *)
+Lemma land_low : forall a n d, 0 <= n -> 0 <= d < 2 ^ n -> Z.land (a * 2 ^ n) d = 0.
+Proof.
+  intros a n d Hn Hd. apply Z.bits_inj'. intros i Hi.
+  rewrite Z.land_spec, Z.bits_0.
+  destruct (Z.lt_ge_cases i n) as [L|G].
+  - rewrite Z.mul_pow2_bits_low by lia. reflexivity.
+  - rewrite <- (Z.mod_small d (2 ^ n)) by lia.
+    rewrite Z.mod_pow2_bits_high by lia. apply andb_false_r.
+Qed.
+Lemma lor_low : forall a n d, 0 <= n -> 0 <= d < 2 ^ n -> Z.lor (a * 2 ^ n) d = a * 2 ^ n + d.
+Proof.
+  intros a n d Hn Hd. pose proof (land_low a n d Hn Hd) as H.
+  rewrite (Z.add_nocarry_lxor _ _ H). symmetry. now apply Z.lxor_lor.
+Qed.
+
+Lemma radix_digit_range : forall radix c d, radix_digit radix c = Some d -> 0 <= d < radix.
+Proof.
+  intros radix c d. unfold radix_digit. cbv zeta.
+  set (v := if is_digit c then acode c - 48
+            else if (97 <=? acode c) && (acode c <=? 122) then acode c - 87
+            else if (65 <=? acode c) && (acode c <=? 90) then acode c - 55 else 99).
+  assert (0 <= v).
+  { unfold v, is_digit. cbv zeta.
+    destruct ((48 <=? acode c) && (acode c <=? 57)) eqn:E1; [apply andb_prop in E1; lia|].
+    destruct ((97 <=? acode c) && (acode c <=? 122)) eqn:E2; [apply andb_prop in E2; lia|].
+    destruct ((65 <=? acode c) && (acode c <=? 90)) eqn:E3; [apply andb_prop in E3; lia|]. lia. }
+  destruct (v <? radix) eqn:E; [|discriminate].
+  intros [= <-]. apply Z.ltb_lt in E. lia.
+Qed.
+
+(* loop invariant: the digits read so far denote V = acc * 2^k + rest, the part `rest` left out of
+   the accumulator is below 2^k and recorded in sticky, scale = 2^k, and digits are left out only
+   once acc has reached 2^(128 - bits) *)
+Definition winv (bits acc k : Z) (st : bool) (V rest : Z) : Prop :=
+  V = acc * 2 ^ k + rest /\ 0 <= rest < 2 ^ k /\ st = negb (rest =? 0) /\ 0 <= k /\
+  0 <= acc < 2 ^ 128 /\ (0 < k -> 2 ^ (128 - bits) <= acc).
+
+Lemma radix_fold_inv : forall radix bits, (radix = 2 /\ bits = 1) \/ (radix = 16 /\ bits = 4) ->
+  forall s acc k st V rest, winv bits acc k st V rest ->
+  match radix_val radix s V with
+  | None => radix_fold radix bits s acc (pow2num k) st = None
+  | Some v => exists acc' k' st' rest',
+      radix_fold radix bits s acc (pow2num k) st = Some (acc', pow2num k', st')
+      /\ winv bits acc' k' st' v rest'
+  end.
+Proof.
+  intros radix bits Hrb.
+  assert (Hbits : 1 <= bits <= 4) by (destruct Hrb as [[_ ->]|[_ ->]]; lia).
+  assert (HB : radix = 2 ^ bits) by (destruct Hrb as [[-> ->]|[-> ->]]; reflexivity).
+  assert (Hnum : num_of_Z radix = pow2num bits) by (destruct Hrb as [[-> ->]|[-> ->]]; reflexivity).
+  assert (HCB : 2 ^ (128 - bits) * radix = 2 ^ 128).
+  { rewrite HB, <- Z.pow_add_r by lia. f_equal. lia. }
+  assert (HBpos : 1 < radix) by (destruct Hrb as [[-> _]|[-> _]]; lia).
+  assert (HCpos : 0 < 2 ^ (128 - bits)) by (apply Z.pow_pos_nonneg; lia).
+  induction s as [|c r IH]; intros acc k st V rest Hinv.
+  - cbn [radix_val radix_fold]. exists acc, k, st, rest. split; [reflexivity | exact Hinv].
+  - cbn [radix_val radix_fold].
+    destruct (radix_digit radix c) as [d|] eqn:Ed; [|reflexivity].
+    pose proof (radix_digit_range radix c d Ed) as Hd.
+    destruct Hinv as (HV & Hrest & Hst & Hk & Hacc & Hfull).
+    rewrite Z.shiftr_div_pow2 by lia.
+    destruct (Z.eqb_spec (acc / 2 ^ (128 - bits)) 0) as [E|E].
+    + (* the digit still fits *)
+      apply Z.div_small_iff in E; [|lia].
+      assert (Hlt : acc < 2 ^ (128 - bits)) by lia.
+      assert (k = 0) by (destruct (Z.eq_dec k 0); [assumption | exfalso; specialize (Hfull ltac:(lia)); lia]).
+      subst k. change (2 ^ 0) with 1 in *. assert (rest = 0) by lia. subst rest.
+      assert (Hnew : Z.lor (wrap_u128 (Z.shiftl acc bits)) d = acc * radix + d).
+      { rewrite Z.shiftl_mul_pow2 by lia. unfold wrap_u128. rewrite <- HB.
+        rewrite Z.mod_small by nia. rewrite HB. apply lor_low; [lia | rewrite <- HB; exact Hd]. }
+      rewrite Hnew.
+      apply (IH (acc * radix + d) 0 st (V * radix + d) 0).
+      unfold winv. change (2 ^ 0) with 1. repeat split; try lia; try nia.
+      exact Hst.
+    + (* the digit is left out: scale *= radix, sticky |= d != 0 *)
+      assert (Hge : 2 ^ (128 - bits) <= acc).
+      { destruct (Z.lt_ge_cases acc (2 ^ (128 - bits))) as [L|G]; [|exact G].
+        exfalso. apply E. apply Z.div_small. lia. }
+      rewrite Hnum, pow2num_step by lia.
+      apply (IH acc (k + bits) (st || negb (d =? 0)) (V * radix + d) (rest * radix + d)).
+      assert (Hpk : 2 ^ (k + bits) = 2 ^ k * radix) by (rewrite Z.pow_add_r by lia; now rewrite HB).
+      assert (0 < 2 ^ k) by (apply Z.pow_pos_nonneg; lia).
+      unfold winv. rewrite Hpk. repeat split; try lia; try nia.
+      rewrite Hst.
+      destruct (Z.eqb_spec rest 0), (Z.eqb_spec d 0), (Z.eqb_spec (rest * radix + d) 0);
+        cbn [negb orb]; try reflexivity; exfalso; nia.
+Qed.
+
+(* ---------------------------------------------------------------- (acc | sticky) as f64 * scale *)
+Lemma rne_IZR_bounds : forall n, 1 <= n <= 2 ^ 128 ->
+  (1 <= rne (IZR n) <= bpow radix2 128)%R.
+Proof.
+  intros n Hn.
+  assert (H1 : rne 1 = 1%R).
+  { unfold rne. apply round_generic; auto with typeclass_instances.
+    apply (generic_format_bpow radix2 fexp64 0). vm_compute. discriminate. }
+  assert (H2 : rne (bpow radix2 128) = bpow radix2 128).
+  { unfold rne. apply round_generic; auto with typeclass_instances.
+    apply generic_format_bpow. vm_compute. discriminate. }
+  split.
+  - rewrite <- H1 at 1. unfold rne. apply round_le; auto with typeclass_instances. apply IZR_le. lia.
+  - rewrite <- H2. unfold rne. apply round_le; auto with typeclass_instances.
+    rewrite <- IZR_Zpower by lia. apply IZR_le. apply Hn.
+Qed.
+
+Lemma wide_value : forall bits acc k st v rest, 1 <= bits <= 4 ->
+  winv bits acc k st v rest ->
+  nmul (num_of_Z (Z.lor acc (Z_of_bool st))) (pow2num k) = num_of_Z v.
+Proof.
+  intros bits acc k st v rest Hbits (HV & Hrest & Hst & Hk & Hacc & Hfull).
+  set (A' := Z.lor acc (Z_of_bool st)).
+  assert (HA'b : acc <= A' <= acc + 1).
+  { unfold A'. destruct st; cbn [Z_of_bool].
+    - rewrite lor_1 by lia. destruct (Z.even acc); lia.
+    - rewrite Z.lor_0_r. lia. }
+  assert (H2k : 0 < 2 ^ k) by (apply Z.pow_pos_nonneg; lia).
+  destruct (Z.eq_dec A' 0) as [Z0|NZ].
+  - (* all digits zero *)
+    assert (acc = 0) by lia. subst acc.
+    assert (k = 0).
+    { destruct (Z.eq_dec k 0); [assumption|]. exfalso. specialize (Hfull ltac:(lia)).
+      assert (0 < 2 ^ (128 - bits)) by (apply Z.pow_pos_nonneg; lia). lia. }
+    subst k. change (2 ^ 0) with 1 in *. assert (rest = 0) by lia. subst rest.
+    rewrite Z0. subst v. reflexivity.
+  - assert (HA'1 : 1 <= A' <= 2 ^ 128) by lia.
+    assert (Hvpos : 0 < v).
+    { rewrite HV. destruct (Z.eq_dec acc 0) as [->|Hacc0]; [|nia].
+      unfold A' in NZ. rewrite Hst in NZ.
+      destruct (Z.eqb_spec rest 0) as [->|Hr0]; [exfalso; apply NZ; reflexivity | lia]. }
+    (* the key real-number fact *)
+    assert (KEY : rne (IZR v) = (rne (IZR A') * bpow radix2 k)%R).
+    { destruct (Z.eq_dec k 0) as [->|Hk0].
+      - change (2 ^ 0) with 1 in *. assert (rest = 0) by lia. subst rest.
+        unfold A'. rewrite Hst. cbn [Z.eqb negb Z_of_bool]. rewrite Z.lor_0_r.
+        simpl bpow. rewrite Rmult_1_r. do 2 f_equal. lia.
+      - specialize (Hfull ltac:(lia)).
+        assert (H54 : 2 ^ 54 <= acc).
+        { apply Z.le_trans with (2 ^ (128 - bits)); [apply Z.pow_le_mono_r; lia | exact Hfull]. }
+        rewrite HV. unfold A'. rewrite Hst.
+        exact (rne_wide acc k rest H54 Hk Hrest). }
+    destruct (rne_IZR_bounds A' HA'1) as [HF1 HF2].
+    set (F := rne (IZR A')) in *.
+    (* (acc | sticky) as f64 *)
+    destruct A' as [|q|q] eqn:EA; try lia.
+    pose proof (num_of_Z_correct q) as [Hvq Hq]. fold F in Hq.
+    rewrite Rlt_bool_true in Hq.
+    2:{ rewrite Rabs_pos_eq by lra. apply Rle_lt_trans with (1 := HF2). apply bpow_lt. lia. }
+    destruct Hq as (HRq & Hfq & Hsq).
+    destruct (num_of_Z (Zpos q)) as [sz|sz| |sz m e] eqn:Ez; try discriminate Hfq.
+    { exfalso. cbn [SF2R] in HRq. lra. }
+    cbn [sign_SF] in Hsq. subst sz.
+    assert (Hbme : SpecFloat.bounded 53 1024 m e = true) by exact Hvq.
+    assert (HFm : F2R (Float radix2 (Zpos m) e) = F) by exact HRq.
+    (* the full integer *)
+    destruct v as [|qv|qv] eqn:Ev; try lia.
+    pose proof (num_of_Z_correct qv) as [Hvv Hqv].
+    rewrite KEY in Hqv. fold F in Hqv.
+    assert (HFk : (0 < F * bpow radix2 k)%R) by (apply Rmult_lt_0_compat; [lra | apply bpow_gt_0]).
+    rewrite Rabs_pos_eq in Hqv by lra.
+    destruct (Z.leb_spec k 1023) as [Hk1|Hk1].
+    + generalize (nmul_pow2 m e k Hbme (conj Hk Hk1)). cbv zeta. rewrite HFm.
+      intros H. specialize (H HF1). destruct H as [Hvz Hz].
+      destruct (Rlt_bool (F * bpow radix2 k) (bpow radix2 1024)).
+      * destruct Hz as (HRz & Hfz & Hsz). destruct Hqv as (HRv & Hfv & Hsv).
+        apply SF_eq; auto; congruence.
+      * now rewrite Hz, Hqv.
+    + rewrite Rlt_bool_false in Hqv.
+      2:{ apply Rle_trans with (bpow radix2 k); [apply bpow_le; lia|].
+          rewrite <- (Rmult_1_l (bpow radix2 k)) at 1.
+          apply Rmult_le_compat_r; [apply bpow_ge_0 | exact HF1]. }
+      rewrite Hqv. unfold pow2num.
+      replace (k <=? 1023) with false by (symmetry; apply Z.leb_gt; lia). reflexivity.
+Qed.
+
+(* ---------------------------------------------------------------- parse_radix_digits is RNE of the integer *)
+Theorem parse_radix_digits_correct : forall radix s v,
+  radix = 2 \/ radix = 16 -> s <> EmptyString ->
+  radix_val radix s 0 = Some v -> parse_radix_digits s radix = Some (num_of_Z v).
+Proof.
+  intros radix s v Hr Hs Hv. unfold parse_radix_digits.
+  destruct s as [|c r]; [congruence|]. cbn [is_empty].
+  set (bits := u32_trailing_zeros radix).
+  assert (Hrb : (radix = 2 /\ bits = 1) \/ (radix = 16 /\ bits = 4)).
+  { destruct Hr as [-> | ->]; [left | right]; split; reflexivity. }
+  assert (Hinv0 : winv bits 0 0 false 0 0).
+  { unfold winv. change (2 ^ 0) with 1. repeat split; lia. }
+  generalize (radix_fold_inv radix bits Hrb (String c r) 0 0 false 0 0 Hinv0).
+  rewrite Hv. change (pow2num 0) with n_one.
+  intros (acc' & k' & st' & rest' & Hfold & Hinv').
+  rewrite Hfold. f_equal.
+  apply (wide_value bits acc' k' st' v rest'); [destruct Hrb as [[_ ->]|[_ ->]]; lia | exact Hinv'].
+Qed.
+
+(* an invalid digit or an empty digit string is still an error *)
+Theorem parse_radix_digits_rejects : forall radix s,
+  radix = 2 \/ radix = 16 ->
+  s = EmptyString \/ radix_val radix s 0 = None -> parse_radix_digits s radix = None.
+Proof.
+  intros radix s Hr [-> | Hn]; [reflexivity|].
+  unfold parse_radix_digits. destruct s as [|c r]; [reflexivity|]. cbn [is_empty].
+  set (bits := u32_trailing_zeros radix).
+  assert (Hrb : (radix = 2 /\ bits = 1) \/ (radix = 16 /\ bits = 4)).
+  { destruct Hr as [-> | ->]; [left | right]; split; reflexivity. }
+  assert (Hinv0 : winv bits 0 0 false 0 0).
+  { unfold winv. change (2 ^ 0) with 1. repeat split; lia. }
+  generalize (radix_fold_inv radix bits Hrb (String c r) 0 0 false 0 0 Hinv0).
+  rewrite Hn. change (pow2num 0) with n_one. intros ->. reflexivity.
+Qed.
